@@ -5,8 +5,10 @@ import (
 	"fmt"
 	"strings"
 
+	exsrv "github.com/cybergarage/go-redis/examples/go-redisd/server"
 	"github.com/cybergarage/go-redis/redis"
 	"verif/fw"
+	"verif/grammar"
 	"verif/resp"
 	"verif/seq"
 	"verif/srv"
@@ -19,6 +21,7 @@ type c03Case struct {
 	Labels   []string `json:"labels"`
 	Splits   []int    `json:"splits,omitempty"`
 	Stride   int      `json:"stride,omitempty"`
+	Store    string   `json:"store,omitempty"` // "example": the repeat part against the bundled store
 }
 
 // soloReply runs one request alone and returns its reply (nil if none).
@@ -149,6 +152,41 @@ func c03Check(cs c03Case) (clause, detail string) {
 	return "", ""
 }
 
+// c03CheckExample runs the pipeline on one connection of the bundled example
+// server (populated first on another connection): one well-formed reply per
+// request, in order, PING answered PONG at its position, loop released.
+func c03CheckExample(cs c03Case) (clause, detail string) {
+	ex := exsrv.NewServer()
+	var setup []byte
+	for _, c := range c07Setups()["3"] {
+		setup = append(setup, grammar.Encode(c)...)
+	}
+	if o := srv.RunConn(ex.Server, seq.NewConn(seq.Script{Input: setup})); o.Panic != "" || o.Spin != "" {
+		cl, dt := crashClause(o)
+		return "setup-" + cl, dt
+	}
+	out := srv.RunConn(ex.Server, seq.NewConn(seq.Script{Input: concat(cs.Requests...), Stride: cs.Stride}))
+	if cl, dt := crashClause(out); cl != "" {
+		return cl, dt
+	}
+	vals, derr := resp.DecodeAll(out.Reply)
+	if derr != nil {
+		return "reply-malformed", derr.Error() + " in " + trunc(out.Reply, 120)
+	}
+	if len(vals) != len(cs.Requests) {
+		return "reply-count", fmt.Sprintf("%d requests to answer, %d replies: %s", len(cs.Requests), len(vals), valuesString(vals))
+	}
+	for i, l := range cs.Labels {
+		if l == "PING|probe" && !vals[i].Equal(resp.S("PONG")) {
+			return "reply-order", fmt.Sprintf("reply #%d (to PING) is %s", i, vals[i])
+		}
+	}
+	if !out.Returned || out.Closes == 0 {
+		return "not-released", "connection loop did not close the connection at end of stream"
+	}
+	return "", ""
+}
+
 func c03Key(cs c03Case, clause string) string {
 	// cause key: the label of the first request whose solo behaviour is at
 	// fault if any, else the labels involved (commands only).
@@ -242,6 +280,28 @@ func c03Run(c *fw.Ctx) {
 			}
 		}
 	}
+	// the same request twice (and once more behind another request) against the
+	// bundled example store holding three elements of every type: whatever a
+	// request leaves behind in the process must not cost a later one its reply
+	extraRepeat := [][]string{{"KEYS", "["}, {"KEYS", "[z-a]"}, {"KEYS", "\\"}, {"KEYS", "a[^"}, {"SCAN", "0", "MATCH", "["}, {"SCAN", "0", "MATCH", "[z-a]", "COUNT", "5"}, {"SCAN", "0", "MATCH", "*"}, {"KEYS", "*"}}
+	repeatItems := append([]reqItem{}, cat...)
+	for _, a := range extraRepeat {
+		repeatItems = append(repeatItems, mkItem(a[0]+"|repeat-extra "+strings.Join(a[1:], " "), "valid", bulkElems(a)))
+	}
+	for _, it := range repeatItems {
+		if !c.Mine() || it.Kind == "quit" {
+			continue
+		}
+		for _, stride := range []int{0, 1} {
+			cs := c03Case{Requests: [][]byte{it.Bytes, it.Bytes, grammar.Encode([]string{"PING"}), it.Bytes}, Labels: []string{it.Label, it.Label, "PING|probe", it.Label}, Stride: stride, Store: "example"}
+			c.Eval()
+			c.Nontrivial()
+			if clause, detail := c03CheckExample(cs); clause != "" {
+				name := it.Label[:strings.IndexByte(it.Label, '|')]
+				c.Violation("C03|repeat:"+name+"|example-store|"+clause, detail+" request="+it.Label+" input="+trunc(it.Bytes, 80), cs)
+			}
+		}
+	}
 	c.Count("catalogue_requests", 0)
 	if c.Shard == 0 {
 		c.Count("catalogue_requests", int64(len(cat)))
@@ -254,6 +314,10 @@ func c03Replay(raw json.RawMessage) (string, bool, error) {
 	if err := json.Unmarshal(raw, &cs); err != nil {
 		return "", false, err
 	}
+	if cs.Store == "example" {
+		clause, detail := c03CheckExample(cs)
+		return fmt.Sprintf("example-store pipeline=%v stride=%d clause=%q %s", cs.Labels, cs.Stride, clause, detail), clause != "", nil
+	}
 	clause, detail := c03Check(cs)
 	return fmt.Sprintf("pipeline=%v splits=%v stride=%d clause=%q %s", cs.Labels, cs.Splits, cs.Stride, clause, detail), clause != "", nil
 }
@@ -262,7 +326,7 @@ func init() {
 	fw.Register(&fw.Prop{
 		ID:    "C03",
 		Level: "exploration",
-		Rule:  "request catalogue from the independent grammar: every registered command with its valid shapes (each option word at least once, list arities 1..3, lower-case name), one surplus-argument shape, every ill-formed shape of C10, unknown commands, handler errors, QUIT variants. Pipelines: every single request; all ordered pairs and triples over one representative per executor family + QUIT + unknown + argument error + handler error. Delivery: whole, EVERY 2-way split, 1-byte (singles, pairs; triples: whole, request-aligned, 1-byte; thorough: every 2-way split too). The reply/liveness invariant (#complete replies written == #complete requests delivered, in order, replies equal to the request's solo reply) is evaluated at every transport Read and at end of stream; a loop-iteration budget turns a spin into a verdict.",
+		Rule:  "request catalogue from the independent grammar: every registered command with its valid shapes (each option word at least once, list arities 1..3, lower-case name), one surplus-argument shape, every ill-formed shape of C10, unknown commands, handler errors, QUIT variants. Pipelines: every single request; all ordered pairs and triples over one representative per executor family + QUIT + unknown + argument error + handler error. Delivery: whole, EVERY 2-way split, 1-byte (singles, pairs; triples: whole, request-aligned, 1-byte; thorough: every 2-way split too). The reply/liveness invariant (#complete replies written == #complete requests delivered, in order, replies equal to the request's solo reply) is evaluated at every transport Read and at end of stream; a loop-iteration budget turns a spin into a verdict. Repeat part: every catalogue request (plus KEYS/SCAN MATCH with ill-formed and valid glob patterns) three times on one connection (X X PING X) against the bundled example store holding three elements per type, whole and 1-byte: one well-formed reply per request, PING answered at its position.",
 		Assumptions: []string{
 			"replies are compared with the reply the same request gets when sent alone (stateless recording double with content-derived tokens)",
 			"pipelines longer than 3 are not explored",
